@@ -39,7 +39,7 @@ theorem avx_request_good (ty : ElemTy) (avx2 : Bool) (fuel : Nat) (c : InstCache
   rw [← g3]; exact g1.scratch_le
 
 /-- the Bluestein inner length the AVX planner picks is what makes the bound linear: `M ≤ 81/16 · n` -/
-theorem avx_bluestein_inner_linear (ty : ElemTy) (n m : Nat) (hn : 1 < n) (h : avxPlanBluesteins ty n = .ok m) :
+theorem avx_bluestein_inner_bounds (ty : ElemTy) (n m : Nat) (hn : 1 < n) (h : avxPlanBluesteins ty n = .ok m) :
     2 * n - 1 ≤ m ∧ m * 16 ≤ 81 * n := by
   obtain ⟨m', hm', hge, _⟩ := avxPlanBluesteins_spec ty n hn
   rw [h] at hm'; cases hm'
